@@ -65,8 +65,15 @@ def container_events(env, rng, thorough):
                ("fs.CreateCopy(unit)", lambda: fs1.CreateCopy(unit=fs2.GetUnit())), ("f+f", lambda: f1 + f1), ("f*s", lambda: f1 * a2),
                ("manager.ConvertScalarToCurrent(s)", lambda: usm.ConvertScalarToCurrent(s1)), ("manager.ConvertToCurrent", lambda: usm.ConvertToCurrent(s1.GetCategory(), s1.GetUnit(), s1.GetValue())),
                ("two+sq", lambda: stwo + Scalar(1.0, "m") * Scalar(3.0, "m")), ("two-sq", lambda: stwo - Scalar(1.0, "m", "length") * Scalar(3.0, "m", "diameter")),
-               ("atwo+aq", lambda: atwo + Array([1.0, 1.0], "m") * Array([3.0, 3.0], "m")), ("two*s", lambda: stwo * s1), ("two+two", lambda: stwo + stwo)]
-        name, fn = rng.choice(ops) if rng.random() < 0.8 else rng.choice(ops[-5:])
+               ("atwo+aq", lambda: atwo + Array([1.0, 1.0], "m") * Array([3.0, 3.0], "m")), ("two*s", lambda: stwo * s1), ("two+two", lambda: stwo + stwo),
+               # the public validation / reading helpers called directly, with arguments of their own (another dimension, other values, another quantity)
+               ("f.CheckValues(two values, 2)", lambda: f1.CheckValues([10.0, 20.0], 2)), ("f.CheckValues(three values, 4): refused", lambda: f1.CheckValues([1.0, 2.0, 3.0], 4)),
+               ("f.CheckValues(values)", lambda: f1.CheckValues((7.0, 8.0, 9.0))), ("a.ValidateValues(other values, other quantity)", lambda: a1.ValidateValues([1e9, -1e9], a2.GetQuantity())),
+               ("f.ValidateValues", lambda: f1.ValidateValues(numpy.array([5.0, 6.0]), s2.GetQuantity())), ("CheckValidity", lambda: [x.CheckValidity() for x in (s1, a1, f1, fs1)]),
+               ("GetFormatted / suffix", lambda: [s1.GetFormatted(s2.GetUnit()) if s1.GetQuantityType() == s2.GetQuantityType() else s1.GetFormatted(), a1.GetFormattedSuffix(), f1.GetFormattedSuffix()]),
+               ("s.AlmostEqual", lambda: s1.AlmostEqual(s2, 3)), ("GetValidUnits", lambda: [x.GetValidUnits() for x in (s1, a1, f1, fs1)]),
+               ("s.GetValueAndUnit / f.GetDimension", lambda: (s1.GetValueAndUnit(), f1.GetDimension())), ("s.ConvertScalarValue", lambda: s1.ConvertScalarValue(3.0, s1.GetUnit()))]
+        name, fn = rng.choice(ops) if rng.random() < 0.7 else rng.choice(ops[-16:])
         pre = proj(objs, conts)
         P.outcome(fn)
         post = proj(objs, conts)
